@@ -33,7 +33,7 @@ FILE_PROPS = {
     "weibull_kernel.hpp": ["C14", "C13"], "normal_kernel.hpp": ["C14", "C13"], "lognormal_kernel.hpp": ["C14", "C13"],
     "logistic_kernel.hpp": ["C14", "C13"], "hyperbolic_secant_kernel.hpp": ["C14", "C13"], "gamma_kernel.hpp": ["C14", "C13"],
     "exponential_power_kernel.hpp": ["C14", "C13"], "power_law_kernel.hpp": ["C14", "C13"],
-    "network.hpp": ["C15"], "network_kernel.hpp": ["C15"], "spread_rate.hpp": ["C18"], "quarantine.hpp": ["C18"],
+    "network.hpp": ["C15"], "network_kernel.hpp": ["C15", "C13"], "spread_rate.hpp": ["C18"], "quarantine.hpp": ["C18"],
     "statistics.hpp": ["C18"], "raster.hpp": ["C19", "C20"], "environment.hpp": ["C12", "C20", "C16"],
     "utils.hpp": ["C01", "C02", "C03", "C17", "C15", "C13"], "simulation.hpp": ["C09"], "model_type.hpp": ["C20"],
     "normal_distribution_with_uniform_fallback.hpp": ["C12"],
